@@ -219,7 +219,7 @@ def run_property(prop, tier, seed, only=None, dump=None):
             undecided.append('%s: %s: %s' % (u.short, res.error[0], res.error[1]))
             continue
         # retry the still-open obligations serially with a longer budget (resource, not semantics)
-        retry = [(n, res.smt[n]) for n in unknown_to_known if n in res.smt]
+        retry = [(n, res.smt[n]) for n in unknown_to_known if n in res.smt] if tier == 'thorough' else []
         v2 = solve.discharge(retry, nproc=min(4, max(1, len(retry))), timeout_ms=u.timeout_ms * 3) if retry else {}
         still = []
         for n in unknown_to_known:
